@@ -59,6 +59,8 @@ func main() {
 		loop(func(f []string) interface{} { return doEntry(f[0], field(f, 1)) })
 	case "reuse":
 		loop(func(f []string) interface{} { return doReuse(f[0], f[1:]) })
+	case "reusecold":
+		loop(func(f []string) interface{} { return doReuseCold(f[0], f[1:]) })
 	case "num":
 		loop(func(f []string) interface{} { return doNum(f[0]) })
 	case "surface":
@@ -594,6 +596,60 @@ func doReuse(query string, records []string) (out reuseOut) {
 	}
 	wg.Wait()
 	out.ConcSnap = snapshot(shared) == before
+	out.Outcome = "ok"
+	return
+}
+
+// doReuseCold: the goroutines are the FIRST evaluations of this prepared query (and of its texts: paths, patterns,
+// nested documents) in the process; the fresh-copy references are computed afterwards.  Whatever an evaluation sets up
+// on first use (a compiled path, a parsed document, a table entry) is then set up by several goroutines at once.
+func doReuseCold(query string, records []string) (out reuseOut) {
+	defer func() {
+		if r := recover(); r != nil {
+			out.Outcome, out.Msg = "panic", fmt.Sprint(r)
+		}
+	}()
+	shared, _, err := kfl.PrepareQuery(query)
+	if err != nil {
+		out.Outcome = "error"
+		return
+	}
+	n := len(records)
+	before := snapshot(shared)
+	const G = 8
+	obs := make([][]evalObs, G)
+	start := make(chan struct{})
+	var wg sync.WaitGroup
+	for g := 0; g < G; g++ {
+		obs[g] = make([]evalObs, n)
+		wg.Add(1)
+		go func(g int) {
+			defer wg.Done()
+			<-start
+			for j := 0; j < n; j++ {
+				i := (j + g) % n
+				obs[g][i] = evalObserved(shared, records[i])
+			}
+		}(g)
+	}
+	close(start)
+	wg.Wait()
+	out.ConcSnap = snapshot(shared) == before
+	for i, r := range records {
+		fresh, _, err := kfl.PrepareQuery(query)
+		if err != nil {
+			out.Outcome = "error"
+			return
+		}
+		f := evalObserved(fresh, r)
+		out.Fresh = append(out.Fresh, f)
+		for g := 0; g < G; g++ {
+			out.ConcEvals++
+			if !sameObs(obs[g][i], f) {
+				out.Concurrent++
+			}
+		}
+	}
 	out.Outcome = "ok"
 	return
 }
